@@ -401,8 +401,10 @@ class SuperSpeedStreamInEndpoint(Elaboratable):
                     # of the previous packet [USB3.2r1: 8.12.1.2].
                     with m.Else():
 
-                        # We no longer need to keep the data that's been acknowledged; clear it.
-                        m.d.ss += read_fill_count.eq(0)
+                        # We no longer need to keep the data that's been acknowledged; clear it,
+                        # and move on to the next sequence number.
+                        m.d.ss   += read_fill_count.eq(0)
+                        m.d.comb += advance_sequence.eq(1)
 
                         # Figure out if we'll need to follow up with a ZLP. If we have ZLP generation enabled,
                         # we'll make sure we end on a short packet. If this is max-packet-size packet _and_ our
@@ -422,7 +424,6 @@ class SuperSpeedStreamInEndpoint(Elaboratable):
                                 m.d.comb += [
                                     interface.tx_zlp.eq(1),
                                     interface.tx_sequence_number.eq(next_sequence_number),
-                                    advance_sequence.eq(1),
                                 ]
 
                                 # ... and clear the need to follow up with one, since we've just sent a short packet.
@@ -442,9 +443,6 @@ class SuperSpeedStreamInEndpoint(Elaboratable):
                         # ready ourselves for transmit.
                         packet_completing = in_stream.valid & (write_fill_count + 4 >= self._max_packet_size)
                         with m.Elif(~in_stream.ready | packet_completing):
-                            m.d.comb += [
-                                advance_sequence   .eq(1),
-                            ]
                             m.d.ss += [
                                 ping_pong_toggle   .eq(~ping_pong_toggle),
                                 read_stream_ended  .eq(0),
